@@ -31,9 +31,12 @@
    Outside the statement (excluded by the guards of the composition, see
    DESIGN C08 "Don't-care"): offsets >= D (the ring aliases them), a set whose
    last frame lies >= D frames ahead, scheduling into the current frame after
-   it has been executed (includes callbacks that schedule into the frame
-   being executed), advancing without having executed the frame, callbacks
-   that fail.                                                              *)
+   its execution has finished, advancing without having executed the frame,
+   callbacks that fail.  Callbacks that schedule while their frame is being
+   executed ARE covered (ExecuteN / NestedStep): an item scheduled zero frames
+   ahead by a callback runs exactly once in that same frame; only the place
+   of such on-the-fly items in the priority order is left open ("priorities
+   won't work", comment in the C code).                                     *)
 EXTENDS Integers, Sequences, FiniteSets, TLC
 
 CONSTANTS D,        \* TDMASCHED_NUM_FRAMES (25)
@@ -43,6 +46,7 @@ CONSTANTS D,        \* TDMASCHED_NUM_FRAMES (25)
           Offs, Cbs, P1s, P2s, P3s, Prios,
           SetLen, MaxSep, UseFat,
           GFns,     \* frame numbers for the one-shot events ({} = not explored)
+          NestOffs,  \* frame offsets at which callbacks schedule on the fly ({} = callbacks never schedule)
           MaxOpsPerFrame, MaxResets   \* simulation only, force progress: scheduling calls per
                                       \* frame before / after execute, resets per run (0 = unbounded)
 
@@ -145,6 +149,55 @@ Execute(perm) ==
   /\ done' = TRUE /\ last' = [op |-> "exec", a |-> <<>>]
   /\ UNCHANGED <<cur, gev>>
 
+Fill(r) == Len(ob[r])
+
+(* tdma_sched_execute() whose callbacks schedule further items "on the fly" (see the comment in
+   the C code).  sp = Seq([by |-> Params of the creating item, s |-> <<off, cb, p1, p2, p3, prio>>]);
+   a creator fires at most once.  Code model: the sorted sequence of the items present at entry,
+   then whatever was appended to the current bucket, in order of appending ("priorities won't
+   work").  A refused on-the-fly item (full bucket) is simply not there; the callback still
+   reports success. *)
+SpawnOf(sp, p) == IF \E k \in DOMAIN sp : sp[k].by = p THEN sp[CHOOSE k \in DOMAIN sp : sp[k].by = p].s ELSE <<>>
+SpawnItem(s) == Item(s[2], s[3], s[4], s[5], s[6])
+RECURSIVE RunNested(_, _, _, _, _, _)
+RunNested(bk, o, seq, i, sp, cl) ==
+  IF i > Len(bk[cur]) THEN [bk |-> bk, ob |-> o, calls |-> cl]
+  ELSE LET it == bk[cur][seq[i]]
+           s == SpawnOf(sp, Params(it))
+       IN IF s = <<>> \/ Len(bk[Wrap(s[1])]) >= K
+          THEN RunNested(bk, o, seq, i + 1, sp, Append(cl, it))
+          ELSE RunNested([bk EXCEPT ![Wrap(s[1])] = Append(@, SpawnItem(s))],
+                         IF s[1] \in DOMAIN o THEN [o EXCEPT ![s[1]] = Append(@, SpawnItem(s))] ELSE o,
+                         seq, i + 1, sp, Append(cl, it))
+ExecuteN(sp) ==
+  LET b0 == bucket[cur]
+      seq == CodePerm(b0) \o [k \in 1..(K - Len(b0)) |-> Len(b0) + k]
+      r == RunNested(bucket, ob, seq, 1, sp, <<>>)
+  IN /\ calls' = r.calls /\ rc' = Len(r.calls)
+     /\ bucket' = [r.bk EXCEPT ![cur] = <<>>]
+     /\ ob' = [r.ob EXCEPT ![0] = BagMinus(@, r.calls)]
+     /\ done' = TRUE /\ last' = [op |-> "execn", a |-> <<sp, Len(b0)>>]
+     /\ UNCHANGED <<cur, gev>>
+
+\* property level, independent of any order of execution: everything that is due in this frame
+\* once the callbacks have run - the items due at entry plus what they (and their offspring)
+\* schedule zero frames ahead
+RECURSIVE DueNow(_, _, _)
+DueNow(due, sp, k) ==
+  IF k > Len(due) \/ Len(due) > K THEN due          \* (more than K: refused by NestedOk)
+  ELSE LET s == SpawnOf(sp, Params(due[k])) IN
+       DueNow(IF s # <<>> /\ s[1] = 0 THEN Append(due, SpawnItem(s)) ELSE due, sp, k + 1)
+\* the statement can be judged without looking at the order of execution only if no creator is
+\* ambiguous and no on-the-fly item meets a full frame
+NestedOk(sp) ==
+  LET due == DueNow(ob[0], sp, 1)
+      tgt(r) == Cardinality({k \in DOMAIN sp : sp[k].s[1] = r})
+  IN /\ Len(due) <= K
+     /\ \A i, j \in DOMAIN due : Params(due[i]) = Params(due[j]) => i = j
+     /\ \A k, h \in DOMAIN sp : sp[k].by = sp[h].by => k = h
+     /\ \A k \in DOMAIN sp : sp[k].s[1] \in 0..D-1 /\ sp[k].s[2] > 0
+     /\ \A r \in 1..D-1 : Fill(r) + tgt(r) <= K
+
 Advance ==
   /\ cur' = Wrap(1)
   /\ ob' = [r \in 0..D-1 |-> IF r = D - 1 THEN <<>> ELSE ob[r + 1]]   \* NoneMissed: ob[0] is empty
@@ -234,6 +287,15 @@ Next ==
   \/ \E off \in Offs, s \in Sets, p3 \in P3s :
        Budget /\ CanSet(off, s) /\ ScheduleSet(off, s, p3) /\ Count1
   \/ Execute(CodePerm(bucket[cur])) /\ nops' = (IF done THEN nops ELSE 0) /\ UNCHANGED nres
+  \/ /\ NestOffs # {} /\ ~done
+     /\ \E i \in DOMAIN bucket[cur], off \in NestOffs, cb \in Cbs, p1 \in P1s, p3 \in P3s, chain \in BOOLEAN,
+           p2 \in {CHOOSE x \in P2s : TRUE}, pr \in {CHOOSE x \in Prios : \A y \in Prios : x <= y, CHOOSE x \in Prios : \A y \in Prios : x >= y} :
+          LET a == [by |-> Params(bucket[cur][i]), s |-> <<off, cb, p1, p2, p3, pr>>]
+              \* optionally the on-the-fly item schedules a further one (other callback, lower priority)
+              b == [by |-> Params(SpawnItem(a.s)), s |-> <<CHOOSE o \in NestOffs : TRUE, CHOOSE c \in Cbs : c # cb \/ Cardinality(Cbs) = 1, p1, p2, p3, pr - 1>>]
+              sp == IF chain THEN <<a, b>> ELSE <<a>>
+          IN NestedOk(sp) /\ ExecuteN(sp)
+     /\ nops' = 0 /\ UNCHANGED nres
   \/ done /\ Advance /\ nops' = 0 /\ UNCHANGED nres
   \/ (MaxResets = 0 \/ nres < MaxResets) /\ Reset /\ nres' = (IF MaxResets = 0 THEN 0 ELSE nres + 1) /\ UNCHANGED nops
   \/ \E s \in Sets, f \in GFns, p3 \in P3s : Budget /\ CanGsm(s) /\ GsmSched(s, f, p3) /\ Count1
@@ -246,7 +308,6 @@ Spec == Init /\ [][Next]_vars
 (* C08 clauses.  XStep is a predicate on a step (trace validation evaluates it
    on every observed step), X the corresponding action property. *)
 IsExec == last'.op = "exec"
-Fill(r) == Len(ob[r])
 
 \* Nothing runs in a frame it was not scheduled for: what Execute calls are
 \* (with multiplicity) items due in exactly this frame, i.e. accepted N
@@ -265,7 +326,18 @@ ParamsPreservedStep ==
 \* ascending priority; equal priorities in any order
 PriorityOrderStep == IsExec => \A i \in 1..Len(calls') - 1 : calls'[i].prio <= calls'[i + 1].prio
 
-BucketEmptyAfterStep == IsExec => bucket'[cur] = <<>>
+BucketEmptyAfterStep == (IsExec \/ last'.op = "execn") => bucket'[cur] = <<>>
+
+\* callbacks that schedule on the fly: every item due in this frame - including those scheduled
+\* zero frames ahead by a callback of this very frame - runs exactly once; the items present at
+\* entry run in ascending priority (the order of the on-the-fly items is left open)
+PosIn(cl, x) == CHOOSE i \in DOMAIN cl : Params(cl[i]) = Params(x)
+NestedStep ==
+  last'.op = "execn" =>
+    LET sp == last'.a[1] IN
+    NestedOk(sp) =>
+      /\ SameBag([i \in DOMAIN calls' |-> Params(calls'[i])], [i \in 1..Len(DueNow(ob[0], sp, 1)) |-> Params(DueNow(ob[0], sp, 1)[i])])
+      /\ \A i, j \in DOMAIN ob[0] : ob[0][i].prio < ob[0][j].prio => PosIn(calls', ob[0][i]) < PosIn(calls', ob[0][j])
 
 \* rc of tdma_schedule_set() in terms of the obligations alone: f[r] = number
 \* of items due r frames from now; the items of the j-th frame go to frame off0 + j
@@ -317,6 +389,7 @@ ExactlyOnce == [][ExactlyOnceStep]_vars
 ParamsPreserved == [][ParamsPreservedStep]_vars
 PriorityOrder == [][PriorityOrderStep]_vars
 BucketEmptyAfter == [][BucketEmptyAfterStep]_vars
+Nested == [][NestedStep]_vars
 OverflowReported == [][OverflowReportedStep]_vars
 SetSpread == [][SetSpreadStep]_vars
 =============================================================================
